@@ -34,12 +34,14 @@ impl OptRec {
         OptRec { attribute_prefix: "".into(), ..Self::quick() }
     }
     pub fn to_options(&self) -> Options {
+        // the derive string goes through the public builder, as a caller's would
         Options {
             text_identifier: self.text_identifier.clone(),
             attribute_prefix: self.attribute_prefix.clone(),
-            derive: self.derive.clone(),
+            derive: String::new(),
             sort: if self.sort_by_name { xml_schema_generator::SortBy::XmlName } else { xml_schema_generator::SortBy::Unsorted },
         }
+        .derive(&self.derive)
     }
     pub fn tokens(&self) -> String {
         format!("OP {} {} {} {}", enc(&self.text_identifier), enc(&self.attribute_prefix), enc(&self.derive), if self.sort_by_name { "N" } else { "U" })
